@@ -344,6 +344,43 @@ fn main() {
             }
             let st = cases.par_iter().map(|ops| { let mut st = Stats::default(); st.inc("long_section_cases"); let order: Vec<usize> = (0..ops.len()).collect(); let first = judge(&ctx, &env, ops, &order, None, &mut st); if ops.len() == 2 { let _ = judge(&ctx, &env, ops, &[1, 0], Some(&first), &mut st); } st }).reduce(Stats::default, Stats::merge);
             s_long = s_long.merge(st);
+            // many operations in one call: K index-addressed operations on K - 1 distinct numeric literals of the extra-core section
+            // (one position carries an override *and* a bump), K around 16, 32, 48 and 64, the flags written in five orders -
+            // bookkeeping that sorts, buckets or batches the operations behaves differently only above some count
+            {
+                let ks: Vec<usize> = [15usize, 16, 17, 31, 32, 33, 34, 40, 48, 63, 64, 65].into_iter().filter(|k| *k + 2 < l).collect();
+                let many: Vec<(Vec<Op>, usize)> = ks.iter().flat_map(|&k| {
+                    // positions 1 .. l-2 of extra_core are uint(0) literals
+                    let shared = [1usize, k / 2, k - 1];
+                    shared.into_iter().map(move |sh| {
+                        let mut ops: Vec<Op> = vec![];
+                        for q in 0..(k - 1) {
+                            let idx = 1 + q;
+                            if q == sh - 1 { ops.push(Op::SecOverride(Section::ExtraCore, idx.to_string(), "5".into())); ops.push(Op::SecBump(Section::ExtraCore, idx.to_string(), Some("2".into()))); }
+                            else if q % 3 == 0 { ops.push(Op::SecOverride(Section::ExtraCore, idx.to_string(), (q + 7).to_string())); }
+                            else { ops.push(Op::SecBump(Section::ExtraCore, idx.to_string(), Some((q % 5 + 1).to_string()))); }
+                        }
+                        (ops, k)
+                    })
+                }).collect();
+                let st = many.par_iter().map(|(ops, _k)| {
+                    let mut st = Stats::default();
+                    let n = ops.len();
+                    let id: Vec<usize> = (0..n).collect();
+                    st.inc("long_section_cases"); st.inc("many_operation_cases");
+                    let first = judge(&ctx, &env, ops, &id, None, &mut st);
+                    let rev: Vec<usize> = (0..n).rev().collect();
+                    let rot = |r: usize| -> Vec<usize> { (0..n).map(|i| (i + r) % n).collect() };
+                    // bumps first then overrides, and the reverse
+                    let (mut b, mut o): (Vec<usize>, Vec<usize>) = (vec![], vec![]);
+                    for (i, op) in ops.iter().enumerate() { if matches!(op, Op::SecBump(..)) { b.push(i) } else { o.push(i) } }
+                    let bo: Vec<usize> = b.iter().chain(o.iter()).copied().collect();
+                    let ob: Vec<usize> = o.iter().chain(b.iter().rev()).copied().collect();
+                    for order in [rev, rot(1), rot(n / 3), rot(n / 2), bo, ob] { st.inc("many_operation_cases"); let _ = judge(&ctx, &env, ops, &order, Some(&first), &mut st); }
+                    st
+                }).reduce(Stats::default, Stats::merge);
+                s_long = s_long.merge(st);
+            }
         }
     }
     let s2 = s2.merge(s_long);
